@@ -1,6 +1,8 @@
-// Engine `decrypt` (C12): the check / open / update program of ConnectionState.Decrypt and
-// VerifyRelay on a real ConnectionState (real AES-GCM keys, real Bits window), replayed step by step
-// in the order a schedule dictates, or as the real functions in one piece.
+// Engine `decrypt` (C12): the real ConnectionState.Decrypt and VerifyRelay (real AES-GCM keys, real
+// Bits window, real decryptLock) run in one goroutine per received packet. The tunnel's receive cipher
+// is wrapped by a gate that parks the goroutine on entry to DecryptDanger (= after the first critical
+// section) and again before it returns (= before the second critical section), so that the harness
+// replays a schedule of atomic steps deterministically on the unmodified functions.
 package decrypt
 
 import (
@@ -12,7 +14,9 @@ import (
 	"log/slog"
 	"strings"
 	"testing"
+	"time"
 
+	"github.com/flynn/noise"
 	"github.com/slackhq/nebula"
 	"github.com/slackhq/nebula/header"
 	"github.com/slackhq/nebula/noiseutil"
@@ -138,7 +142,38 @@ type thread struct {
 	relay bool
 	pkt   []byte
 	pc    int // 0 start, 1 checked, 2 opened, 3 done
+	nb    []byte
+	go1   chan struct{} // harness -> goroutine: perform the AEAD open
+	go2   chan struct{} // harness -> goroutine: return from DecryptDanger
+	auth  chan bool     // goroutine -> harness: AEAD result
+	done  chan string   // goroutine -> harness: result of Decrypt / VerifyRelay
 }
+
+// gate is the tunnel's dKey: the real cipher state, with two parking places per call.
+type gate struct {
+	inner   noiseutil.CipherState
+	cur     *thread // the thread whose goroutine is running (nil: pass straight through)
+	entered chan *thread
+}
+
+func (g *gate) EncryptDanger(out, ad, plaintext []byte, n uint64, nb []byte) ([]byte, error) {
+	return g.inner.EncryptDanger(out, ad, plaintext, n, nb)
+}
+func (g *gate) Overhead() int { return g.inner.Overhead() }
+func (g *gate) DecryptDanger(out, ad, ciphertext []byte, n uint64, nb []byte) ([]byte, error) {
+	th := g.cur
+	if th == nil {
+		return g.inner.DecryptDanger(out, ad, ciphertext, n, nb)
+	}
+	g.entered <- th
+	<-th.go1
+	res, err := g.inner.DecryptDanger(out, ad, ciphertext, n, nb)
+	th.auth <- err == nil
+	<-th.go2
+	return res, err
+}
+
+const hang = 10 * time.Second
 
 func newExec(t *testing.T) func([]string) string {
 	l := slog.New(slog.NewTextHandler(io.Discard, &slog.HandlerOptions{Level: slog.LevelDebug}))
@@ -146,10 +181,11 @@ func newExec(t *testing.T) func([]string) string {
 	for i := range key {
 		key[i] = byte(i*11 + 3)
 	}
+	var key32 [32]byte
+	copy(key32[:], key)
 	mk := func() noiseutil.CipherState {
-		blk, _ := aes.NewCipher(key)
-		a, _ := cipher.NewGCM(blk)
-		return noiseutil.VerifNewAESGCM(a)
+		suite := noise.NewCipherSuite(noise.DH25519, noise.CipherAESGCM, noise.HashSHA256)
+		return noiseutil.NewCipherState(noise.UnsafeNewCipherState(suite, key32, 0), noise.CipherAESGCM)
 	}
 	// the sender's side of the tunnel: same key; sealed with the raw AEAD so that a (buggy or hostile)
 	// peer may use any 64-bit counter, including ones its own send ceiling would refuse
@@ -161,6 +197,7 @@ func newExec(t *testing.T) func([]string) string {
 		return peerAEAD.Seal(dst, nonce, plaintext, ad)
 	}
 	var cs *nebula.ConnectionState
+	var g *gate
 	threads := map[int]*thread{}
 	nb := make([]byte, 12)
 
@@ -188,15 +225,39 @@ func newExec(t *testing.T) func([]string) string {
 		}
 	}
 
+	// the real receive function for this packet; canonical result
+	receive := func(th *thread, nb []byte) string {
+		var err error
+		if th.relay {
+			err = cs.VerifyRelay(l, th.ctr, th.pkt, nb)
+		} else {
+			var out []byte
+			p := append([]byte(nil), th.pkt...) // Decrypt writes the plaintext over the packet
+			out, err = cs.Decrypt(l, th.ctr, p, nb)
+			if err == nil && string(out) != "inner ip packet" {
+				return "delivered-wrong-plaintext"
+			}
+		}
+		switch err {
+		case nil:
+			return "delivered"
+		case nebula.ErrAlreadySeen:
+			return "seen"
+		}
+		return "auth:fail"
+	}
+
 	return func(a []string) string {
 		switch a[0] {
 		case "reset":
-			cs = nebula.VerifDecryptNewCS(mk(), hlib.Atou(a[1]))
+			g = &gate{inner: mk(), entered: make(chan *thread)}
+			cs = nebula.VerifDecryptNewCS(g, hlib.Atou(a[1]))
 			threads = map[int]*thread{}
 			return "ok"
 		case "pkt":
 			c := hlib.Atou(a[2])
-			threads[hlib.Atoi(a[1])] = &thread{ctr: c, relay: strings.HasPrefix(a[3], "relay"), pkt: build(c, a[3])}
+			threads[hlib.Atoi(a[1])] = &thread{ctr: c, relay: strings.HasPrefix(a[3], "relay"), pkt: build(c, a[3]),
+				nb: make([]byte, 12), go1: make(chan struct{}), go2: make(chan struct{}), auth: make(chan bool), done: make(chan string, 1)}
 			return "ok"
 		case "dump":
 			if cs == nil {
@@ -220,32 +281,54 @@ func newExec(t *testing.T) func([]string) string {
 		switch a[0] {
 		case "step":
 			switch th.pc {
-			case 0:
-				if nebula.VerifDecryptCheck(cs, l, th.ctr) {
+			case 0: // start the goroutine; it runs the first critical section
+				g.cur = th
+				go func() { th.done <- receive(th, th.nb) }()
+				select {
+				case <-g.entered:
 					th.pc = 1
 					return "check:ok"
+				case r := <-th.done:
+					th.pc = 3
+					if r == "seen" {
+						return "check:seen"
+					}
+					return "finished-without-open:" + r
+				case <-time.After(hang):
+					th.pc = 3
+					return "hang"
 				}
-				th.pc = 3
-				return "check:seen"
-			case 1:
-				var err error
-				if th.relay {
-					err = nebula.VerifDecryptOpenRelay(cs, th.ctr, th.pkt, nb)
-				} else {
-					err = nebula.VerifDecryptOpen(cs, th.ctr, th.pkt, nb)
-				}
-				if err == nil {
+			case 1: // the AEAD open
+				g.cur = th
+				th.go1 <- struct{}{}
+				if <-th.auth {
 					th.pc = 2
 					return "auth:ok"
 				}
+				th.go2 <- struct{}{}
 				th.pc = 3
-				return "auth:fail"
-			case 2:
-				th.pc = 3
-				if nebula.VerifDecryptUpdate(cs, l, th.ctr) {
-					return "delivered"
+				select {
+				case r := <-th.done:
+					if r == "auth:fail" {
+						return "auth:fail"
+					}
+					return "auth-failed-but:" + r
+				case <-time.After(hang):
+					return "hang"
 				}
-				return "update:seen"
+			case 2: // return from DecryptDanger; the goroutine runs the second critical section
+				g.cur = th
+				th.go2 <- struct{}{}
+				th.pc = 3
+				select {
+				case r := <-th.done:
+					if r == "seen" {
+						return "update:seen"
+					}
+					return r
+				case <-time.After(hang):
+					return "hang"
+				}
 			}
 			return "noop"
 		case "full":
@@ -253,25 +336,8 @@ func newExec(t *testing.T) func([]string) string {
 				return "noop"
 			}
 			th.pc = 3
-			var err error
-			if th.relay {
-				err = cs.VerifyRelay(l, th.ctr, th.pkt, nb)
-			} else {
-				var out []byte
-				// Decrypt writes the plaintext over the packet: give it a copy
-				p := append([]byte(nil), th.pkt...)
-				out, err = cs.Decrypt(l, th.ctr, p, nb)
-				if err == nil && string(out) != "inner ip packet" {
-					return "delivered-wrong-plaintext"
-				}
-			}
-			switch err {
-			case nil:
-				return "delivered"
-			case nebula.ErrAlreadySeen:
-				return "seen"
-			}
-			return "auth:fail"
+			g.cur = nil
+			return receive(th, nb)
 		}
 		return "bad-op"
 	}
